@@ -373,6 +373,16 @@ class C14(Check):
                 if self.tier == "quick" and s == 1 and k not in (0, 5):
                     continue
                 yield ("seed", k, s)
+        # systematic candidate sets: toy tables (planted pair + one deviation); the candidates are what the major
+        # stage itself proposes for a menu of structures
+        from .c02 import structures
+        from .c04 import minor_plantings
+        gene = worlds.gene_of(("toy",), "hg19")
+        for struct in structures(gene, 2):
+            if len(struct) != 2:
+                continue
+            for planted in minor_plantings(gene, struct):
+                yield ("cands2", planted, ())
         for i, (table, cands) in enumerate(cand_instances()):
             n = len(cands)
             for r in range(1, min(n, 3 if self.tier == "quick" else 4) + 1):
@@ -380,6 +390,25 @@ class C14(Check):
                     yield ("cands", i, order)
 
     def successors(self, st):
+        if st[0] == "cands2":
+            _, planted, devs = st
+            if devs:
+                return
+            from .c04 import C04, FACTORS
+            gene = worlds.gene_of(("toy",), "hg19")
+            base = C04._base(None, gene, planted)
+            k = 0
+            for pos in sorted(base):
+                for op in sorted(base[pos]):
+                    for f in (0.5, 1.3):
+                        k += 1
+                        if self.tier == "quick" and k % 3 != self.seed % 3:
+                            continue
+                        yield (f"{pos}{op}x{f}", ("cands2", planted, (("scale", pos, op, f),)))
+            for m in sorted(gene.mutations):
+                if m[1] not in base.get(m[0], {}):
+                    yield (f"set{m}", ("cands2", planted, (("set", m[0], m[1], 6),)))
+            return
         if st[0] != "hist":
             return
         ops = st[1]
@@ -400,7 +429,47 @@ class C14(Check):
             return self._eval_hist(st)
         if st[0] == "seed":
             return self._eval_seed(st)
+        if st[0] == "cands2":
+            return self._eval_cands2(st)
         return self._eval_cands(st)
+
+    def _eval_cands2(self, st):
+        from aldy.profile import Profile
+        from aldy.solutions import CNSolution
+        from aldy.major import estimate_major
+        from .c04 import C04
+
+        _, planted, devs = st
+        gene = worlds.gene_of(("toy",), "hg19")
+        p = Profile("verif", gap=0.3)
+        table = tables.apply_deviations(C04._base(None, gene, planted), devs)
+        cov0 = tables.to_coverage(gene, p, table)
+        base_struct = tuple(gene.alleles[M].cn_config for M, _ in planted)
+        menu = [base_struct, base_struct + ("1",), base_struct[:1], ("1", "1"), ("1", "4")]
+        cands = []
+        seen = set()
+        for stc in menu:
+            if tuple(sorted(stc)) in seen:
+                continue
+            seen.add(tuple(sorted(stc)))
+            try:
+                ms = estimate_major(gene, cov0, CNSolution(gene, 0, list(stc)), "any")
+            except Exception:
+                ms = []
+            ms = sorted(ms, key=lambda m: (int(1000 * m.score), m._solution_nice()))
+            if ms:
+                m = ms[0]
+                cands.append((tuple(stc), {a.major: c for a, c in m.solution.items()}, tuple((x.pos, x.op) for x in m.added), round(m.score, 3)))
+        cands = cands[:4]
+        v = []
+        summary = []
+        for r in (2, 3):
+            for order in itertools.permutations(range(len(cands)), r):
+                vv, same = self._judge_candidates(gene, Profile("verif"), table, cands, order, f"toy planted {planted} devs {devs}")
+                v += vv
+                summary.append(same)
+        return Outcome(v[:6], key=("cands2", len(cands), sum(all(x) for x in summary)), nontrivial=len(cands) >= 2,
+                       counters={"candidate_orders": len(summary)}, note={"planted": planted, "devs": devs, "candidates": [c[:2] for c in cands]})
 
     def _eval_hist(self, st):
         ops = st[1]
@@ -495,16 +564,21 @@ print(hashlib.md5(text.encode()).hexdigest(), sc)
     # ------------------------------------------------------------------ candidates
     def _eval_cands(self, st):
         from aldy.profile import Profile
+
+        _, i, order = st
+        table, cands = cand_instances()[i]
+        gene = worlds.gene_of(("toy",), "hg19")
+        v, outcome = self._judge_candidates(gene, Profile("verif"), table, cands, order, f"instance {i}")
+        return Outcome(v, key=("cands", i, tuple(outcome)), nontrivial=True, note={"instance": i, "order": order, "same_as_solo": outcome})
+
+    def _judge_candidates(self, gene, p, table, cands, order, label):
+        """Joint refinement of the candidates cands[j], j in order, against the solo refinement of each
+        (three-way oracle: solo / solo under pooled inputs (D8) / tie among the pooled optimal set (D7))."""
         from aldy.solutions import CNSolution, MajorSolution, SolvedAllele
         from aldy.minor import estimate_minor, solve_minor_model
         from aldy.coverage import Coverage
         from aldy.gene import Mutation
         from ..ref import minor_ref
-
-        _, i, order = st
-        table, cands = cand_instances()[i]
-        gene = worlds.gene_of(("toy",), "hg19")
-        p = Profile("verif")
 
         def mk(c):
             struct, majors, novel, score = c
@@ -529,10 +603,9 @@ print(hashlib.md5(text.encode()).hexdigest(), sc)
             X = mk(cands[j])
             solo = canon_res(estimate_minor(gene, cov(), [X], "any"), 0.0)
             jx = canon_res([s for s in joint if key_of(s.major_solution) == key_of(X)], X.score - minscore)
-            outcome.append((j, jx == solo))
+            outcome.append(jx == solo)
             if jx == solo:
                 continue
-            # (b) X alone with exactly the allele list and considered-variant set that S pools
             alleles, mutations = [], set()
             for ms in S:
                 for sa in ms.solution:
@@ -554,7 +627,7 @@ print(hashlib.md5(text.encode()).hexdigest(), sc)
 
             fc = cov().filtered(Coverage.quality_filter).filtered(flt)
             pooled1 = canon_res(solve_minor_model(gene, fc, X, alleles, mutations, "any", 1), 0.0)
-            where = f"instance {i}, candidates {[cands[k][:2] for k in order]}, candidate {cands[j][:2]}"
+            where = f"{label}, candidates {[cands[k][:2] for k in order]}, candidate {cands[j][:2]}"
             if jx == pooled1:
                 v.append(("cands/pooled-considered-variants", f"{where}: alone {solo}, next to the others {jx} (= alone under the pooled candidate alleles and variants)"))
                 continue
@@ -563,7 +636,7 @@ print(hashlib.md5(text.encode()).hexdigest(), sc)
                 v.append(("cands/tie-choice", f"{where}: {jx} vs {pooled1}: equal-score members of one optimal set"))
                 continue
             v.append(("cands/refinement-depends-on-other-candidates", f"{where}: alone {solo}; jointly {jx}; alone under pooled inputs {pooled1}"))
-        return Outcome(v, key=("cands", i, tuple(outcome)), nontrivial=True, note={"instance": i, "order": order, "same_as_solo": outcome})
+        return v, outcome
 
 
 CHECK = C14
